@@ -288,6 +288,8 @@ def run(ctx, tasks=None):
         try:
             import flacblocks_tie
             flacblocks_tie.run(ctx)
+            import flacload_tie
+            flacload_tie.run(ctx)
             import mp4file_tie
             mp4file_tie.run(ctx, report=True)
         except ImportError as e:
